@@ -119,11 +119,11 @@ Proof.
 Qed.
 
 (* attributes the <sheet> loop does not look at *)
-Lemma sheet_attrs_free : forall rels a r n p v,
+Lemma sheet_attrs_free : forall rels a r n p v rt,
   keys_ok a = true ->
-  sheet_attrs rels (a ++ r) n p v = sheet_attrs rels r n p v.
+  sheet_attrs rels (a ++ r) n p v rt = sheet_attrs rels r n p v rt.
 Proof.
-  induction a as [|[k x] a IH]; intros r n p v H; [reflexivity|].
+  induction a as [|[k x] a IH]; intros r n p v rt H; [reflexivity|].
   cbn in H. apply andb_true_iff in H. destruct H as [H1 H2].
   apply negb_true_iff in H1.
   apply orb_false_iff in H1. destruct H1 as [H1 E3].
@@ -147,18 +147,49 @@ Proof.
   intros s. unfold tprefix. destruct s as [|q]; [auto|]. destruct q; auto.
 Qed.
 
-(* the relationship target the encoder writes resolves to the part path and to the kind *)
-Lemma xlsx_target_path : forall style k file, xlsx_kind_ok k = true ->
-  xlsx_path (xlsx_target style k file) = s_xl_slash ++ kind_dir k ++ SLASH :: file.
+Lemma starts_with_app : forall p s, starts_with p (p ++ s) = true.
+Proof. induction p as [|x p IH]; intros s; cbn; [reflexivity|]. rewrite N.eqb_refl. apply IH. Qed.
+
+(* the relationship target the encoder writes resolves to the part path, whatever the part is
+   called *)
+Lemma xlsx_target_path : forall style part, xs_part_ok style part = true ->
+  xlsx_path (xlsx_target style part) = s_xl_slash ++ part.
 Proof.
-  intros style k file Hk. unfold xlsx_target.
-  destruct (tprefix_cases style) as [E|[E|E]]; rewrite E;
-    destruct k; try discriminate; vm_compute; reflexivity.
+  intros style part Hp. unfold xlsx_target, tprefix, xlsx_path.
+  destruct style as [|q].
+  - cbn [app]. cbn [xs_part_ok] in Hp. apply negb_true_iff in Hp.
+    apply orb_false_iff in Hp. destruct Hp as [H1 H2]. rewrite H1, H2. reflexivity.
+  - destruct q.
+    + change (starts_with s_slash_xl_slash (s_xl_slash ++ part)) with false.
+      rewrite starts_with_app. reflexivity.
+    + change (starts_with s_slash_xl_slash (s_xl_slash ++ part)) with false.
+      rewrite starts_with_app. reflexivity.
+    + rewrite starts_with_app. reflexivity.
 Qed.
 
-Lemma kind_of_path_dir : forall k file, xlsx_kind_ok k = true ->
-  kind_of_path (s_xl_slash ++ kind_dir k ++ SLASH :: file) = Some k.
-Proof. intros k file Hk. destruct k; try discriminate; vm_compute; reflexivity. Qed.
+(* ... and the relationship Type the encoder writes names the kind *)
+Lemma kind_of_rel_type_enc : forall alt k, xlsx_kind_ok k = true ->
+  kind_of_rel_type (kind_rel_type alt k) = Some k.
+Proof. intros [|] k Hk; destruct k; try discriminate; vm_compute; reflexivity. Qed.
+
+(* the reader's map, seen through the relationships part as a lookup table *)
+Lemma map_get_map_entry : forall id (l : amap (str * str)),
+  map_get id (map rel_entry l) =
+  match map_get id l with
+  | Some tg => Some (fst tg, kind_of_rel_type (snd tg))
+  | None => None
+  end.
+Proof.
+  intros id. induction l as [|[k [t ty]] l IH]; [reflexivity|].
+  cbn [map rel_entry map_get fst snd]. destruct (str_eqb k id); [reflexivity|exact IH].
+Qed.
+Lemma map_get_rels_map : forall id l,
+  map_get id (rels_map l) =
+  match map_get id (rels_raw l) with
+  | Some tg => Some (fst tg, kind_of_rel_type (snd tg))
+  | None => None
+  end.
+Proof. intros id l. unfold rels_map, rels_raw. rewrite <- map_rev. apply map_get_map_entry. Qed.
 
 Definition rid_key (rpfx : str) : bool :=
   no_colon rpfx && negb (match rpfx with [] => true | _ => false end).
@@ -183,27 +214,27 @@ Proof.
 Qed.
 
 (* the three interpreted attributes, in any of the six orders *)
-Lemma sheet_attrs_core : forall rels rpfx nm rid target v omit p post n0 p0,
-  rid_key rpfx = true -> map_get rid rels = Some target ->
+Lemma sheet_attrs_core : forall rels rpfx nm rid target ty v omit p post n0 p0 t0,
+  rid_key rpfx = true -> map_get rid rels = Some (target, ty) ->
   keys_ok post = true ->
   sheet_attrs rels
     (perm3 p [(a_name, nm)] (if omit && is_visible v then [] else [(a_state, vis_text v)])
-           [(qn rpfx a_id, rid)] ++ post) n0 p0 Visible
-  = Ok (nm, xlsx_path target, v).
+           [(qn rpfx a_id, rid)] ++ post) n0 p0 Visible t0
+  = Ok (nm, xlsx_path target, v, ty).
 Proof.
-  intros rels rpfx nm rid target v omit p post n0 p0 Hk Hg Hpost.
+  intros rels rpfx nm rid target ty v omit p post n0 p0 t0 Hk Hg Hpost.
   destruct (rid_key_other rpfx Hk) as [K1 [K2 K3]].
-  assert (Hend : forall n q w, sheet_attrs rels post n q w = Ok (n, q, w)).
-  { intros n q w. rewrite <- (app_nil_r post), (sheet_attrs_free rels post [] n q w Hpost).
+  assert (Hend : forall n q w u, sheet_attrs rels post n q w u = Ok (n, q, w, u)).
+  { intros n q w u. rewrite <- (app_nil_r post), (sheet_attrs_free rels post [] n q w u Hpost).
     reflexivity. }
-  assert (Hs : forall r n q w, sheet_attrs rels ((a_state, vis_text v) :: r) n q w
-                               = sheet_attrs rels r n q v).
-  { intros r n q w. destruct v; reflexivity. }
-  assert (Hn : forall r n q w, sheet_attrs rels ((a_name, nm) :: r) n q w
-                               = sheet_attrs rels r nm q w) by reflexivity.
-  assert (Hr : forall r n q w, sheet_attrs rels ((qn rpfx a_id, rid) :: r) n q w
-                               = sheet_attrs rels r n (xlsx_path target) w).
-  { intros r n q w. cbn [sheet_attrs]. rewrite K1, K2, K3, Hg. reflexivity. }
+  assert (Hs : forall r n q w u, sheet_attrs rels ((a_state, vis_text v) :: r) n q w u
+                               = sheet_attrs rels r n q v u).
+  { intros r n q w u. destruct v; reflexivity. }
+  assert (Hn : forall r n q w u, sheet_attrs rels ((a_name, nm) :: r) n q w u
+                               = sheet_attrs rels r nm q w u) by reflexivity.
+  assert (Hr : forall r n q w u, sheet_attrs rels ((qn rpfx a_id, rid) :: r) n q w u
+                               = sheet_attrs rels r n (xlsx_path target) w ty).
+  { intros r n q w u. cbn [sheet_attrs]. rewrite K1, K2, K3, Hg. reflexivity. }
   destruct (omit && is_visible v) eqn:Eo.
   - assert (v = Visible) by (destruct v; try reflexivity; rewrite andb_false_r in Eo; discriminate).
     subst v.
@@ -217,46 +248,52 @@ Qed.
 Lemma k_sheet_local : forall pfx, no_colon pfx = true -> local_name (qn pfx k_sheet) = k_sheet.
 Proof. intros. apply local_name_qn; [assumption|reflexivity]. Qed.
 
-(* one <sheet> element *)
-Lemma xlsx_sheet_step : forall rels pfx rpfx s ch rest st,
-  no_colon pfx = true -> rid_key rpfx = true -> xs_legal rels s ch = true ->
-  xlsx_wb_run rels (sheet_events pfx rpfx s ch ++ rest) XMain st =
-  xlsx_wb_run rels rest XMain
-    (add_sheet st s (s_xl_slash ++ kind_dir (m_kind s) ++ SLASH :: xs_file ch)).
+(* one <sheet> element: the kind is the one the relationship Type names, the path the part the
+   Target names — whatever folder and file name that part has *)
+Lemma xlsx_sheet_step : forall l pfx rpfx s ch rest st,
+  no_colon pfx = true -> rid_key rpfx = true -> xs_legal (rels_raw l) s ch = true ->
+  xlsx_wb_run (rels_map l) (sheet_events pfx rpfx s ch ++ rest) XMain st =
+  xlsx_wb_run (rels_map l) rest XMain (add_sheet st s (s_xl_slash ++ xs_part ch)).
 Proof.
-  intros rels pfx rpfx s ch rest st Hp Hk Hl.
+  intros l pfx rpfx s ch rest st Hp Hk Hl.
   unfold xs_legal in Hl. apply andb_true_iff in Hl. destruct Hl as [Hl Hpost].
   apply andb_true_iff in Hl. destruct Hl as [Hl Hpre].
-  apply andb_true_iff in Hl. destruct Hl as [Hkind Hg].
-  destruct (map_get (xs_rid ch) rels) as [t|] eqn:Eg; [|discriminate].
-  apply str_eqb_eq in Hg. subst t.
+  apply andb_true_iff in Hl. destruct Hl as [Hl Hg].
+  apply andb_true_iff in Hl. destruct Hl as [Hkind Hpart].
+  destruct (map_get (xs_rid ch) (rels_raw l)) as [[t ty]|] eqn:Eg; [|discriminate].
+  apply andb_true_iff in Hg. destruct Hg as [Hg1 Hg2].
+  apply str_eqb_eq in Hg1. apply str_eqb_eq in Hg2. subst t ty.
+  assert (Eg' : map_get (xs_rid ch) (rels_map l) =
+                Some (xlsx_target (xs_tstyle ch) (xs_part ch), Some (m_kind s))).
+  { rewrite map_get_rels_map, Eg. cbn [fst snd].
+    rewrite (kind_of_rel_type_enc (xs_talt ch) (m_kind s) Hkind). reflexivity. }
+  set (rels := rels_map l) in *.
   unfold sheet_events. cbn [app xlsx_wb_run]. rewrite (k_sheet_local pfx Hp).
   change (str_eqb k_sheet k_sheet) with true. cbn iota.
-  rewrite (sheet_attrs_free rels (xs_pre ch) _ [] [] Visible Hpre).
-  rewrite (sheet_attrs_core rels rpfx (m_name s) (xs_rid ch) _ (m_vis s) (xs_omit ch) (xs_perm ch)
-             (xs_post ch) [] [] Hk Eg Hpost).
-  cbn [obind]. rewrite (xlsx_target_path (xs_tstyle ch) (m_kind s) (xs_file ch) Hkind).
-  rewrite (kind_of_path_dir (m_kind s) (xs_file ch) Hkind).
+  rewrite (sheet_attrs_free rels (xs_pre ch) _ [] [] Visible None Hpre).
+  rewrite (sheet_attrs_core rels rpfx (m_name s) (xs_rid ch) _ _ (m_vis s) (xs_omit ch) (xs_perm ch)
+             (xs_post ch) [] [] None Hk Eg' Hpost).
+  cbn [obind]. rewrite (xlsx_target_path (xs_tstyle ch) (xs_part ch) Hpart).
+  cbn [sheet_kind].
   destruct s as [nm vv kk]. cbn [m_name m_vis m_kind].
   change (str_eqb k_sheet k_workbook) with false. reflexivity.
 Qed.
 
-Lemma xlsx_sheets_run : forall rels pfx rpfx j sheets chs rest st,
+Lemma xlsx_sheets_run : forall l pfx rpfx j sheets chs rest st,
   no_colon pfx = true -> rid_key rpfx = true -> forallb junk_ok_xlsx j = true ->
-  forallb2 (xs_legal rels) sheets chs = true ->
-  xlsx_wb_run rels
+  forallb2 (xs_legal (rels_raw l)) sheets chs = true ->
+  xlsx_wb_run (rels_map l)
     (flat_map (fun sc => j ++ sheet_events pfx rpfx (fst sc) (snd sc)) (combine sheets chs) ++ rest)
     XMain st =
-  xlsx_wb_run rels rest XMain
-    (add_sheets st (map (fun sc => (fst sc, s_xl_slash ++ kind_dir (m_kind (fst sc))
-                                             ++ SLASH :: xs_file (snd sc)))
+  xlsx_wb_run (rels_map l) rest XMain
+    (add_sheets st (map (fun sc => (fst sc, s_xl_slash ++ xs_part (snd sc)))
                         (combine sheets chs))).
 Proof.
-  intros rels pfx rpfx j. induction sheets as [|s sheets IH]; intros [|ch chs] rest st Hp Hk Hj Hl;
+  intros l pfx rpfx j. induction sheets as [|s sheets IH]; intros [|ch chs] rest st Hp Hk Hj Hl;
     cbn in Hl; try discriminate; [reflexivity|].
   apply andb_true_iff in Hl. destruct Hl as [Hl1 Hl2].
   cbn [combine flat_map map add_sheets fst snd]. rewrite <- !app_assoc.
-  rewrite (xlsx_skip rels j _ st Hj), (xlsx_sheet_step rels pfx rpfx s ch _ st Hp Hk Hl1).
+  rewrite (xlsx_skip (rels_map l) j _ st Hj), (xlsx_sheet_step l pfx rpfx s ch _ st Hp Hk Hl1).
   apply IH; assumption.
 Qed.
 
@@ -386,8 +423,7 @@ Proof.
       (flat_map (fun sc => j ++ sheet_events pfx (xc_rpfx c) (fst sc) (snd sc))
                 (combine (wb_sheets wb) (xc_sheets c)) ++ rest) XMain st =
     xlsx_wb_run rels rest XMain
-      (add_sheets st (map (fun sc => (fst sc, s_xl_slash ++ kind_dir (m_kind (fst sc))
-                                               ++ SLASH :: xs_file (snd sc)))
+      (add_sheets st (map (fun sc => (fst sc, s_xl_slash ++ xs_part (snd sc)))
                           (combine (wb_sheets wb) (xc_sheets c))))).
   { intros rest st. apply xlsx_sheets_run; assumption. }
   rewrite Hsh. rewrite (xlsx_skip rels j _ _ Hj).
@@ -433,21 +469,22 @@ Proof.
     by (intros; apply local_name_qn; assumption).
   cbn [app]. rewrite (rels_skip1 Other _ [] eq_refl).
   rewrite rels_skip1 by (cbn; rewrite (Hloc k_Relationships eq_refl); reflexivity).
-  assert (Hgen : forall (l : list (str * str)) m rest,
+  assert (Hgen : forall (l : list (str * (str * str))) m rest,
     xlsx_read_relationships
-      (flat_map (fun it : str * str => junk ++ [Start (qn pfx k_Relationship)
-                                         [(a_Id, fst it); (a_Type, t_rel); (a_Target, snd it)];
+      (flat_map (fun it : str * (str * str) => junk ++ [Start (qn pfx k_Relationship)
+                                         [(a_Id, fst it); (a_Type, snd (snd it));
+                                          (a_Target, fst (snd it))];
                                    End (qn pfx k_Relationship)]) l ++ rest) m
-    = xlsx_read_relationships rest (rev l ++ m)).
+    = xlsx_read_relationships rest (rev (map rel_entry l) ++ m)).
   { induction l0 as [|x l0 IH]; intros m rest; [reflexivity|].
-    cbn [flat_map rev]. rewrite <- !app_assoc. rewrite (rels_skip junk _ m Hj).
+    cbn [flat_map map rev]. rewrite <- !app_assoc. rewrite (rels_skip junk _ m Hj).
     cbn [app xlsx_read_relationships]. rewrite (Hloc k_Relationship eq_refl).
     change (str_eqb k_Relationship k_Relationship) with true.
     change (str_eqb k_Relationship k_Relationships) with false. cbn iota.
-    change (rel_attrs [(a_Id, fst x); (a_Type, t_rel); (a_Target, snd x)] [] [])
-      with (fst x, snd x).
-    cbn beta iota.
-    rewrite IH. unfold map_insert. destruct x; reflexivity. }
+    change (rel_attrs [(a_Id, fst x); (a_Type, snd (snd x)); (a_Target, fst (snd x))] [] [] None)
+      with (rel_entry x).
+    unfold rel_entry at 1. cbn beta iota.
+    rewrite IH. unfold map_insert, rel_entry. reflexivity. }
   rewrite Hgen, app_nil_r. rewrite (rels_skip junk _ _ Hj).
   cbn [xlsx_read_relationships]. rewrite (Hloc k_Relationships eq_refl). reflexivity.
 Qed.
@@ -843,10 +880,13 @@ Definition ex_xlsx_wb : workbook str :=
        [([110], [65; 49; 60; 66]); ([109], [])] true.
 Definition ex_xlsx_c : xlsx_choice :=
   mkXc [120] a_relationships
-       [([98], d_chartsheets ++ SLASH :: [50]); ([99], s_slash_xl_slash ++ d_macrosheets ++ SLASH :: [51]);
-        ([97], s_xl_slash ++ d_worksheets ++ SLASH :: [49])]
-       [mkXs [97] 2 [49] 3 false [([115], [49])] []; mkXs [98] 0 [50] 5 true [] [];
-        mkXs [99] 1 [51] 1 true [] [([115], [50])]]
+       (* parts: xl/chartsheets/1 is the WORKSHEET, xl/ws/a the chart sheet, xl/3 the macro sheet *)
+       [([98], ([119; 115; 47; 97], t_cs_strict)); ([99], (s_slash_xl_slash ++ [51], t_xlim));
+        ([120], ([116], ns_rel));
+        ([97], (s_xl_slash ++ d_chartsheets ++ SLASH :: [49], t_ws))]
+       [mkXs [97] 2 (d_chartsheets ++ SLASH :: [49]) 3 false [([115], [49])] [] false;
+        mkXs [98] 0 [119; 115; 47; 97] 5 true [] [] true;
+        mkXs [99] 1 [51] 1 true [] [([115], [50])] true]
        [mkXn [1%nat; 1%nat] false true [] []; mkXn [] true false [] []]
        false true [] [Other; Text [10]].
 Lemma xlsx_nonvacuous :
